@@ -24,7 +24,10 @@
   `std::abs(te - t) < t_eps` is relative to the magnitude of the times, `max(|ti|, |te|, te - ti)`, where the
   unfixed source uses `te - ti` alone, which the rounding of `t += dt` exceeds as soon as `|t|` is about a
   hundred times the step: a sub-stepped step then runs one sub-step past `te`
-  (patches/C48-GenericSolver-end-tolerance.diff).
+  (patches/C48-GenericSolver-end-tolerance.diff); and in the halving mode too the time step is clamped to the
+  remaining time (`else if (dt > te - t) dt = te - t;`, patches/C49-GenericSolver-no-step-beyond-te.diff): with a
+  directed rounding mode the error of `t += dt` is systematic and exceeds any fixed tolerance after a few hundred
+  sub-steps.
 -/
 namespace TfelVerif.C48
 
@@ -175,7 +178,10 @@ def clampDt (C : Consts α) (o : Opts α) (te : α) (s : LoopState α) : α :=
     let d := if C.zero < o.maxTs then cmin s.dt o.maxTs else s.dt
     -- intended: the remaining time minus the (non-negative) minimal time step
     if (te - s.t) - cmax o.minTs C.zero < d then te - s.t else d
-  else s.dt
+  else
+    -- never step beyond the requested time: the rounding errors accumulated in `t` over many
+    -- sub-steps may exceed the tolerance of the end test (`else if (dt > te - t) dt = te - t;`)
+    if te - s.t < s.dt then te - s.t else s.dt
 
 /-- second part of the body (`if (!end)`): clamp, then the two `raise_if` -/
 def stepSecond (C : Consts α) (o : Opts α) (te : α) (s : LoopState α) :
